@@ -18,6 +18,7 @@ import (
 
 func init() {
 	vpRegister("VPH_C28_start", VPH_C28_start)
+	vpRegister("VPH_C28_reply_sizes", VPH_C28_reply_sizes)
 }
 
 type vpListener struct {
@@ -127,6 +128,10 @@ func VPH_C28_start() {
 	}
 	in = append(in, vpClientCall(x3, NFS_PROGRAM, NFS_V3, NFSPROC3_GETATTR, g.Bytes())...)
 	conn := &vpConn{in: in, remote: "127.0.0.1:800"}
+	if vpBool("small-tcp-segments") {
+		conn.seg = 5 // the calls arrive 5 bytes at a time: headers and bodies split across reads
+		vpReach("small-tcp-segments")
+	}
 	l := &vpListener{addr: "127.0.0.1:2049", conns: []*vpConn{conn}, done: make(chan struct{})}
 	if vpBool("transient-accept-failure") {
 		vpReach("transient-accept-failure")
@@ -213,4 +218,42 @@ func vpTLSListen(network, addr string, cfg *tls.Config) (net.Listener, error) {
 		}
 	}
 	return tls.Listen(network, addr, cfg)
+}
+
+// VPH_C28_reply_sizes: a conformant client's READ of every count from 0 to 560 bytes (so that the
+// record-marked reply takes every length around 512 and beyond) is answered with a complete,
+// well-formed record carrying exactly the bytes asked for. The connection is served by the same
+// loop every started server uses (handleConnectionWithRecordMarking), entered directly.
+func VPH_C28_reply_sizes() {
+	fs := vpNewFS()
+	fs.addDir("/d")
+	data := make([]byte, 700)
+	for i := range data {
+		data[i] = byte(i*7 + 1)
+	}
+	fs.addFileData("/d/x", data)
+	env := vpServer(fs, ExportOptions{})
+	env.srv.options.UseRecordMarking = true
+	h := env.handleFor("/d/x")
+	count := vpChoose("count", 0, 560)
+	xid := vpU32("xid")
+	var a vpBuf
+	a.fh(h).u64(0).u32(uint32(count))
+	conn := &vpConn{in: vpClientCall(xid, NFS_PROGRAM, NFS_V3, NFSPROC3_READ, a.Bytes()), remote: "127.0.0.1:800"}
+	env.srv.handleConnectionWithRecordMarking(conn, env.h)
+	replies, ok := vpSplitRecords(conn.out)
+	vpAssert(vpAnd(ok, len(replies) == 1), "one-complete-record-marked-reply")
+	if !ok || len(replies) != 1 {
+		return
+	}
+	rd := &vpRd{b: replies[0]}
+	hd := vpRPCReplyHeader(rd)
+	vpAssert(vpAnd(!rd.bad, hd.xid == xid), "reply-carries-the-calls-xid")
+	vpAssert(rd.u32() == NFS_OK, "read-ok")
+	rd.postOp()
+	vpAssert(rd.u32() == uint32(count), "count-as-asked")
+	rd.u32() // eof
+	got := rd.opaque()
+	vpAssert(vpAnd(!rd.bad, rd.done()), "reply-complete")
+	vpAssert(string(got) == string(data[:count]), "data-as-stored")
 }
